@@ -43,7 +43,7 @@ def _composition(rng, n):
 
 
 def gen(rng, tier):
-    n = 250 if tier == 'quick' else 6000
+    n = G.budget(250) if tier == 'quick' else 6000
     for _ in range(n):
         t = _table(rng)
         nr, nc = len(t), len(t[0])
